@@ -347,22 +347,22 @@ func handshake(c *vh.Ctx, m *vh.Model) func() {
 	pad := func(b []byte, n int) []byte { return append(b, make([]byte, n)...) }
 	bodies := [][]byte{
 		nil, {0xc0}, {0x80}, r.Bytes(50), r.Bytes(300),
-		pad(enc(someSig, okPub, okNonce, uint(4)), 120),           // well formed, signature of an unrelated key
-		pad(enc(someSig, okPub, okNonce, uint(4)), 0),             // no padding
-		pad(enc(someSig, r.Bytes(64), okNonce, uint(4)), 100),     // initiator key not on the curve
-		pad(enc(make([]byte, 65), okPub, okNonce, uint(4)), 100),  // zero signature
+		pad(enc(someSig, okPub, okNonce, uint(4)), 120),          // well formed, signature of an unrelated key
+		pad(enc(someSig, okPub, okNonce, uint(4)), 0),            // no padding
+		pad(enc(someSig, r.Bytes(64), okNonce, uint(4)), 100),    // initiator key not on the curve
+		pad(enc(make([]byte, 65), okPub, okNonce, uint(4)), 100), // zero signature
 		pad(enc(bytes.Repeat([]byte{0xff}, 65), okPub, okNonce, uint(4)), 100),
-		pad(enc(someSig[:64], okPub, okNonce, uint(4)), 100),      // short signature array
+		pad(enc(someSig[:64], okPub, okNonce, uint(4)), 100), // short signature array
 		pad(enc(someSig, okPub[:63], okNonce, uint(4)), 100),
 		pad(enc(someSig, okPub, okNonce[:31], uint(4)), 100),
-		pad(enc(someSig, okPub, okNonce), 100),                    // too few elements
-		pad(enc(someSig, okPub, okNonce, r.Bytes(9)), 100),        // version overflows uint
+		pad(enc(someSig, okPub, okNonce), 100),                                               // too few elements
+		pad(enc(someSig, okPub, okNonce, r.Bytes(9)), 100),                                   // version overflows uint
 		pad(enc(someSig, okPub, okNonce, uint(4), r.Bytes(10), []interface{}{uint(1)}), 100), // extra fields (forward compatibility)
-		pad(enc(someSig, okPub, okNonce, []interface{}{}), 100),   // list where an integer is expected
-		append([]byte{0xf9, 0xff, 0xff}, r.Bytes(100)...),         // list header larger than the data
-		pad(enc(make([]byte, 64), okNonce, uint(4)), 100),         // (ack shape) zero random key
-		pad(enc(okPub, okNonce, uint(4)), 100),                    // (ack shape) valid
-		pad(enc(r.Bytes(64), okNonce, uint(4)), 100),              // (ack shape) key not on the curve
+		pad(enc(someSig, okPub, okNonce, []interface{}{}), 100),                              // list where an integer is expected
+		append([]byte{0xf9, 0xff, 0xff}, r.Bytes(100)...),                                    // list header larger than the data
+		pad(enc(make([]byte, 64), okNonce, uint(4)), 100),                                    // (ack shape) zero random key
+		pad(enc(okPub, okNonce, uint(4)), 100),                                               // (ack shape) valid
+		pad(enc(r.Bytes(64), okNonce, uint(4)), 100),                                         // (ack shape) key not on the curve
 	}
 	sigV := append([]byte(nil), someSig...)
 	sigV[64] = 4
